@@ -1425,8 +1425,8 @@ def run(ctx):
                     'impl_call': [r_.get('ok', {}).get('v') for r_ in results[0].get('eval', {}).get('call', [])][:2]})
     ctx.cov['exhaustive'] = False
     return ctx.finish(extra={'partial': [
-        'UserFunction (callables), perturb, find_inverse are not in the Coq model: UserFunction is checked on the implementation against the exact oracle; '
-        '_BoundaryFunction is a theorem for any function (boundary_function_is_trace)',
+        'perturb, find_inverse, tensor_product with more than two operands have no theorem; UserFunction routes are a theorem for any callable (user_routes_agree) '
+        'and are checked on the implementation against the exact oracle; see the NOT PROVED account at the end of coq/C07/Props.v',
         'ComposedFunction / cylinderize / support restriction / copy / disk sides: theorems on the model (composed_routes, composed_chain_rule, cylinderize_spec, '
         'support_restriction_spec, copy_spec, disk_boundary_on_circle); their tie to the implementation is the Fraction oracle, not a Coq case file',
         'immutability: monitored by snapshots around every call on the implementation, not a theorem',
@@ -1435,12 +1435,12 @@ def run(ctx):
 META = {
     'technique': 'Rocq proofs over exact rationals / an abstract field (route agreement by induction over the axes, quotient and Leibniz '
                  'identities by field, circle identities by ring) + correspondence of bspline.py/geometry.py with the exact model within derived rounding bounds',
-    'level_text': 'Theorems (Coq, 54, unbounded over axes, degrees, open knot vectors, coefficients, trailing shapes): single-point, grid and scattered-point '
+    'level_text': 'Theorems (Coq, 67, unbounded over axes, degrees, open knot vectors, coefficients, trailing shapes): single-point, grid and scattered-point '
                   'evaluation agree for B-spline and NURBS functions (routes_agree_*; the old XY[1-d] indexing is refuted for sdim 1 and 3), Jacobian slot order and '
                   'Hessian (triu) order, values/Jacobians/Hessians are sums over the Cox-de Boor reference and its derivative recursion (C02), NURBS = quotient with the '
                   'first- and second-order quotient rules, translate/scale/apply_matrix/getitem (full Python index semantics)/as_nurbs/outer_sum/outer_product/'
-                  'tensor_product/cylinderize(+defaults)/copy/support restriction specs, boundary extraction is the trace (no hypothesis about the basis left open) and keeps '
-                  'the support of the remaining axes, ComposedFunction chain rule, circular arcs / annulus / disk boundary lie on exact circles over any field with c^2+s^2=1. '
+                  'tensor_product/cylinderize(+defaults)/copy/support restriction specs for BSplineFunc AND for the NURBS branches (apply_matrix, rotate_2d, outer sum/product, tensor product, mixed operands), UserFunction routes, boundary extraction is the trace (no hypothesis about the basis left open) and keeps '
+                  'the support of the remaining axes, ComposedFunction chain rule, circular arcs / annulus / disk boundary lie on exact circles over any field with c^2+s^2=1, and circular_arc_3pt/5pt/7pt as model functions lie on the circle for every parameter value (their B-splines are the Bernstein polynomials of each span, from the Cox-de Boor recursion). '
                   'Tie on every run: every evaluation route, boundary extraction and coefficient operation of generated spline/NURBS functions (sdim 1-3, scalar/vector/matrix '
                   'coefficients, repeated knots, all bdspecs, partially restricted supports, point arrays in C/F/transposed/strided layouts, default arguments of every '
                   'constructor) against the exact Qc model (coq/C07/Model.v) within per-point derived bounds and against an independent Fraction oracle; snapshots around '
